@@ -23,11 +23,21 @@ def s_phases(ctx, shape, phase):
     oracle_c04(ctx, shape, info, rows, durations, {}, df, sysobj)
 
 
-def s_consistency(ctx, shape):
-    """solve(phase=p) == rows of p in the all-phase result (cell by cell); unknown phase rejected."""
+def s_consistency(ctx, shape, limited=None):
+    """solve(phase=p) == rows of p in the all-phase result (cell by cell, INCLUDING Domain and Warnings - nothing may be
+    carried from one phase of an all-phase solve into the next); unknown phase rejected."""
+    W = True
+    if limited:
+        from .c09 import mk_limits
+
+        shape = {**shape, "nodes": [dict(n) for n in shape["nodes"]]}
+        for nd in shape["nodes"]:
+            if nd["name"] in limited:
+                nd["limits"] = mk_limits(ctx, nd["name"], limited[nd["name"]])
+        W = "bounded"
     sysobj, info, durations = sysh.build_system(ctx, shape)
     try:
-        df_all = sysh.run_solve(ctx, sysobj, shape)
+        df_all = sysh.run_solve(ctx, sysobj, shape, stub_warns=W)
     except sysh.Unstable:
         ctx.note("unstable")
         return
@@ -37,7 +47,7 @@ def s_consistency(ctx, shape):
     oracle_c01(ctx, shape, info, all_rows, durations, {}, df_all, sysobj)
     for p in durations:
         try:
-            df_p = sysh.run_solve(ctx, sysobj, shape, phase=p)
+            df_p = sysh.run_solve(ctx, sysobj, shape, phase=p, stub_warns=W)
         except sysh.Unstable:
             ctx.fail("single-phase-solve-raises-where-all-phase-did-not", info={"phase": p})
             continue
@@ -91,6 +101,14 @@ def instances(tier):
     }
     for sid, sh in small.items():
         out.append(Instance("C06", "c06:s_consistency", dict(shape=sh), name="S/" + sid, uf=True, cover=["solved"], weight=30))
+    rich = {
+        "cons-two-src-mux": (S(N("S1", "Source", phases=["a"], only=()), N("S2", "Source", only=()), N("M", "PMux", ["S1", "S2"], only=("rs",)),
+                               N("L", "ILoad", "M", phases=["a", "b"], only=()), phases=ph), {"S2": ["io"], "L": ["vi"]}),
+        "cons-two-src-limits": (S(N("S1", "Source", only=()), N("L1", "ILoad", "S1", phases=["a", "b"], only=()), N("S2", "Source", only=()),
+                                  N("L2", "RLoad", "S2", phases=["b"], only=()), phases=ph), {"S1": ["io"], "L2": ["ii"]}),
+    }
+    for sid, (sh, lim) in rich.items():
+        out.append(Instance("C06", "c06:s_consistency", dict(shape=sh, limited=lim), name="S/" + sid, uf=True, cover=["solved"], weight=40))
     for sid, sh in shapes.real_loop_phase_shapes().items():
         for ph in sh["phases"]:
             out.append(Instance("C06", "sys_common:s_real_loop", dict(shape=sh, oracle="c01", opts={"phase": ph}), name="RL/%s@%s" % (sid, ph),
